@@ -2,11 +2,15 @@
 package main
 
 import (
+	"encoding/json"
 	"flag"
 	"fmt"
 	"os"
+	"path/filepath"
 	"runtime"
+	"runtime/pprof"
 	"strconv"
+	"strings"
 	"time"
 )
 
@@ -52,7 +56,13 @@ func runCheck(args []string) int {
 	fs.StringVar(&cfg.Replay, "replay", "", "replay a recorded violation file")
 	fs.IntVar(&cfg.Workers, "workers", runtime.NumCPU(), "parallel workers")
 	fs.Float64Var(&cfg.Scale, "scale", 1, "scale the number of cases (debugging)")
+	prof := fs.String("cpuprofile", "", "write a CPU profile")
 	fs.Parse(args)
+	if *prof != "" {
+		f, _ := os.Create(*prof)
+		pprof.StartCPUProfile(f)
+		defer pprof.StopCPUProfile()
+	}
 	if s := os.Getenv("VERIF_SCALE"); s != "" {
 		if f, err := strconv.ParseFloat(s, 64); err == nil {
 			cfg.Scale = f
@@ -133,6 +143,38 @@ func fillHistEvidence(cfg *RunCfg, ev *Evidence, cov *Cov) {
 }
 
 func runReplay(cfg *RunCfg, rep *Reporter, cov *Cov) int {
-	fmt.Fprintln(os.Stderr, "replay: not implemented for this engine yet")
-	return 2
+	b, err := os.ReadFile(cfg.Replay)
+	if err != nil {
+		fmt.Fprintln(os.Stderr, err)
+		return 2
+	}
+	var file struct {
+		Engine    string `json:"engine"`
+		Tier      string `json:"tier"`
+		Violation struct {
+			Property string          `json:"property"`
+			Sig      string          `json:"signature"`
+			Replay   json.RawMessage `json:"replay"`
+		} `json:"violation"`
+	}
+	if err := json.Unmarshal(b, &file); err != nil {
+		fmt.Fprintln(os.Stderr, err)
+		return 2
+	}
+	cfg.Property = file.Violation.Property
+	cfg.Tier = file.Tier
+	switch {
+	case strings.HasPrefix(file.Violation.Sig, "histmon|"):
+		replayHistory(cfg, rep, cov, file.Violation.Replay)
+	default:
+		fmt.Fprintf(os.Stderr, "replay: signatures of kind %q are replayed by re-running the check with the recorded seed (see the replay file)\n", strings.SplitN(file.Violation.Sig, "|", 2)[0])
+		return 2
+	}
+	ev := &Evidence{Coverage: map[string]any{}}
+	cfg.Replays = filepath.Join(cfg.Scratch, "replays")
+	code := rep.Finish(ev)
+	if code == 0 {
+		fmt.Println("replay: no violation reproduced")
+	}
+	return code
 }
